@@ -3,12 +3,15 @@
 package load
 
 import (
+	"bytes"
 	"fmt"
 	"go/ast"
+	"go/printer"
 	"go/token"
 	"go/types"
 	"os"
 	"runtime"
+	"runtime/debug"
 	"sort"
 	"strings"
 	"time"
@@ -105,7 +108,19 @@ func Load(cfg Config) (*Program, error) {
 		for round := 0; round < 4; round++ {
 			progress := false
 			for si, stage := range stages {
+				var before map[string]string
+				if os.Getenv("XPCHECK_DEBUG_MUT") != "" {
+					before = printAll(pkgs)
+				}
 				res := stage(pkgs)
+				if before != nil {
+					after := printAll(pkgs)
+					for f, b := range before {
+						if _, emitted := res.Overlay[f]; !emitted && after[f] != b {
+							fmt.Printf("DEBUG: round %d stage %d changed %s without emitting it\n", round+1, si, f)
+						}
+					}
+				}
 				if round == 0 {
 					notes = append(notes, res.Skipped...)
 				}
@@ -143,6 +158,11 @@ func Load(cfg Config) (*Program, error) {
 					}
 					continue
 				}
+				if d := os.Getenv("XPCHECK_DUMP_STAGES"); d != "" {
+					for f, b := range res.Overlay {
+						os.WriteFile(fmt.Sprintf("%s/r%ds%d__%s", d, round+1, si, strings.ReplaceAll(strings.TrimPrefix(f, cfg.Dir+"/"), "/", "__")), b, 0o644)
+					}
+				}
 				progress = true
 				pkgs = pkgs2
 				cum = ov
@@ -174,13 +194,73 @@ func Load(cfg Config) (*Program, error) {
 	}
 	packages.Visit(pkgs, nil, func(pp *packages.Package) { p.All[pp.PkgPath] = pp })
 	prog, _ := ssautil.AllPackages(pkgs, ssa.InstantiateGenerics)
-	prog.Build()
+	if bad := buildAll(prog); len(bad) > 0 {
+		if len(normOverlay) > 0 {
+			// the SSA builder could not digest the normal form of some package: never let that decide
+			// anything — analyse the tree as written
+			cfg2 := cfg
+			cfg2.NoNormalize = true
+			p2, err := Load(cfg2)
+			if err != nil {
+				return nil, err
+			}
+			p2.NormNotes = append(notes, "normal form rejected by the SSA builder ("+strings.Join(bad, "; ")+"), analysing the tree as written")
+			return p2, nil
+		}
+		return nil, fmt.Errorf("SSA construction failed: %s", strings.Join(bad, "; "))
+	}
 	p.SSA = prog
 	for _, sp := range prog.AllPackages() {
 		p.SSAPkgs[sp.Pkg.Path()] = sp
 	}
 	p.LoadTime = time.Since(start)
 	return p, nil
+}
+
+func printAll(pkgs []*packages.Package) map[string]string {
+	out := map[string]string{}
+	for _, p := range pkgs {
+		if !strings.HasPrefix(p.PkgPath, Module) {
+			continue
+		}
+		for _, f := range p.Syntax {
+			var buf bytes.Buffer
+			printer.Fprint(&buf, p.Fset, f)
+			out[p.Fset.Position(f.Pos()).Filename] = buf.String()
+		}
+	}
+	return out
+}
+
+// buildAll builds every package in parallel like (*ssa.Program).Build, but a
+// panic of the builder is caught: the first one ends the wait (the builder may
+// have died holding one of the program's locks, so the other goroutines are
+// abandoned together with the program) and is reported.
+func buildAll(prog *ssa.Program) []string {
+	pkgs := prog.AllPackages()
+	done := make(chan string, len(pkgs))
+	for _, sp := range pkgs {
+		go func(sp *ssa.Package) {
+			defer func() {
+				if e := recover(); e != nil {
+					if os.Getenv("XPCHECK_DEBUG_SSA") != "" {
+						fmt.Printf("SSA builder panic in %s: %v\n%s\n", sp.Pkg.Path(), e, debug.Stack())
+						os.Exit(3)
+					}
+					done <- fmt.Sprintf("%s: %v", sp.Pkg.Path(), e)
+					return
+				}
+				done <- ""
+			}()
+			sp.Build()
+		}(sp)
+	}
+	for range pkgs {
+		if bad := <-done; bad != "" {
+			return []string{bad}
+		}
+	}
+	return nil
 }
 
 func loadPkgs(pc *packages.Config, patterns []string) ([]*packages.Package, error) {
